@@ -54,7 +54,7 @@ func genEnding(t *rapid.T) (ending, int) {
 		"trap":    {"trap-divzero", "trap-oob", "trap-remzero", "trap-divzero-i64", "stack-overflow"},
 		"exit":    {"exit"},
 		"panic":   {"panic", "nil-deref", "nil-func"},
-		"compile": {"compile-type", "compile-syntax", "compile-undefined"},
+		"compile": {"compile-type", "compile-syntax", "compile-undefined", "compile-wat"},
 		"normal":  {"normal"},
 	}
 	cl := rapid.SampledFrom([]string{"trap", "exit", "panic", "compile", "normal"}).Draw(t, "class")
@@ -99,6 +99,9 @@ func genEnding(t *rapid.T) (ending, int) {
 		return ending{Kind: k, Class: "compile", Wa: `badE: i32 = "text"; println(badE)`, Wz: `设定 badE: 普整型 = "text"; 输出(badE)`}, -1
 	case "compile-syntax":
 		return ending{Kind: k, Class: "compile", Wa: `println("unterminated"`, Wz: `输出("unterminated"`}, -1
+	case "compile-wat":
+		// `wa run` also accepts WebAssembly text; a .wat file that does not assemble fails to compile
+		return ending{Kind: k, Class: "compile"}, -1
 	default: // compile-undefined
 		return ending{Kind: "compile-undefined", Class: "compile", Wa: `println(undefinedE)`, Wz: `输出(undefinedE)`}, -1
 	}
@@ -108,6 +111,14 @@ func genEnding(t *rapid.T) (ending, int) {
 func genProgram(t *rapid.T) (kase, *mini.Unit) {
 	wz := rapid.Bool().Draw(t, "wz")
 	e, want := genEnding(t)
+	if e.Kind == "compile-wat" {
+		src := rapid.SampledFrom([]string{
+			"(module (func", "(module (func $main (export \"_start\") i32.add))", "(module (memory 1) (func $f (result i32) i32.const))",
+			"(modul)", "(module (func $f (param i32) local.get 9))", "(module (func $f call $missing))", ")(",
+		}).Draw(t, "badwat")
+		name := rapid.SampledFrom([]string{"p", "main", "prog_1", "hello"}).Draw(t, "fname") + ".wat"
+		return kase{Name: name, Src: src, Abs: rapid.Bool().Draw(t, "abs"), Ending: e.Kind, Class: e.Class, Want: want}, nil
+	}
 	o := mini.Opts{Wz: wz, Entry: "main", MaxDepth: 4,
 		Site: mini.Site{Wa: e.Wa, Wz: e.Wz, Terminal: e.Class != "normal"}}
 	switch e.Class {
@@ -239,7 +250,7 @@ func runWa(k kase) runResult {
 	return r
 }
 
-var diagRe = regexp.MustCompile(`(?m)^\S*\.(wa|wz):\d+:\d+: `)
+var diagRe = regexp.MustCompile(`(?m)^\S*\.(wa|wz|wat):\d+:\d+: `)
 
 func looksLikeCompileFailure(s string) bool {
 	return diagRe.MatchString(s) || strings.Contains(s, "appbuild.BuildApp:") || strings.Contains(s, "compile_func.go") ||
@@ -262,7 +273,7 @@ func verdict(k kase, r runResult) (key, what, skip string) {
 	// Did the program really end the way the generator intended?  If not the
 	// generator (or its model) is wrong and the case is discarded.
 	if k.Class == "compile" {
-		if r.Status != 0 && !looksLikeCompileFailure(r.Stdout+r.Stderr) {
+		if r.Status != 0 && k.Ending != "compile-wat" && !looksLikeCompileFailure(r.Stdout+r.Stderr) {
 			return "", "", "generator: expected a compile diagnostic, got: " + tail(r.Stdout, 300)
 		}
 	} else {
@@ -310,7 +321,7 @@ func depthClass(d int) string {
 
 func TestRunExitStatus(t *testing.T) {
 	s := core.NewStats(prop, "RunExitStatus")
-	s.Rule("rapid: single-file program (.wa or .wz, drawn) whose entry function reaches, through a drawn nest (depth 0..4) of blocks/ifs/loops/switches/closures/helper calls/method calls/deferred closures with printing statements before it, one site of a drawn ending kind (normal return; exit function with status 0..255; panic; runtime-detected nil dereference / nil function call; wasm trap by integer division or remainder by zero (i32 and i64), out-of-bounds memory access, stack exhaustion; compile error by type error, syntax error, undefined name); the real `wa` binary is run as `wa run <file>` (relative or absolute path) and the oracle compares the process exit status with: 0 for normal return, n for exit(n), non-zero otherwise; non-trivial = ending is not normal and at least one line was printed before it")
+	s.Rule("rapid: single-file program (.wa or .wz, drawn) whose entry function reaches, through a drawn nest (depth 0..4) of blocks/ifs/loops/switches/closures/helper calls/method calls/deferred closures with printing statements before it, one site of a drawn ending kind (normal return; exit function with status 0..255; panic; runtime-detected nil dereference / nil function call; wasm trap by integer division or remainder by zero (i32 and i64), out-of-bounds memory access, stack exhaustion; compile error by type error, syntax error, undefined name, or a .wat file that does not assemble); the real `wa` binary is run as `wa run <file>` (relative or absolute path) and the oracle compares the process exit status with: 0 for normal return, n for exit(n), non-zero otherwise; non-trivial = ending is not normal and at least one line was printed before it")
 	s.Assume("the generator's tiny interpreter predicts the lines printed before the ending; a run whose stdout does not start with them (or that fails to compile when it should not) is counted as generator/model rejection, never as a violation")
 	var rejected, unusable int64
 	s.Check(t, func(t *rapid.T, c *core.Case) {
@@ -335,12 +346,16 @@ func TestRunExitStatus(t *testing.T) {
 		c.Class("class/" + k.Class)
 		if strings.HasSuffix(k.Name, ".wz") {
 			c.Class("syntax/wz")
+		} else if strings.HasSuffix(k.Name, ".wat") {
+			c.Class("syntax/wat")
 		} else {
 			c.Class("syntax/wa")
 		}
 		c.Class(depthClass(k.Depth))
-		for _, w := range u.Wrappers {
-			c.Class("wrapper/" + w)
+		if u != nil {
+			for _, w := range u.Wrappers {
+				c.Class("wrapper/" + w)
+			}
 		}
 		if k.Abs {
 			c.Class("path/absolute")
